@@ -261,3 +261,50 @@ Proof.
   pose proof (enough_top _ _ C Ha) as He.
   rewrite (pre_unique_subl _ C _ _ _ He H), (pre_unique_subl _ C _ _ _ He H'). reflexivity.
 Qed.
+
+(* ------------------------------------------------------------------ where chains end *)
+Lemma top_fun w x t : Top w x t -> forall t', Top w x t' -> t = t'.
+Proof.
+  induction 1 as [x n Hn Ht | x n p t Hn Hp Htop IH]; intros t' H'.
+  - destruct H' as [x n' Hn' Ht' | x n' p' t' Hn' Hp' Htop'].
+    + congruence.
+    + exfalso. rewrite Hn in Hn'. injection Hn' as <-. eapply Ht; eauto.
+  - destruct H' as [x n' Hn' Ht' | x n' p' t' Hn' Hp' Htop'].
+    + exfalso. rewrite Hn in Hn'. injection Hn' as <-. eapply Ht'; eauto.
+    + apply IH. rewrite Hn in Hn'. injection Hn' as <-. rewrite Hp in Hp'. injection Hp' as <-. auto.
+Qed.
+
+Lemma top_ancs w a x t : AncS w a x -> Top w x t -> Top w a t.
+Proof.
+  induction 1 as [|x p Hp Ha IH]; intros Ht; auto. apply IH.
+  destruct Hp as (n & Hn & Hpp). destruct Ht as [x n' Hn' Ht | x n' p' t Hn' Hp' Htop].
+  - exfalso. rewrite Hn in Hn'. injection Hn' as <-. eapply Ht; eauto.
+  - rewrite Hn in Hn'. injection Hn' as <-. rewrite Hpp in Hp'. injection Hp' as <-. auto.
+Qed.
+
+Lemma top_not_pelem w x t : Top w x t -> forall p, t <> PElem p.
+Proof. induction 1; auto. Qed.
+
+Lemma depth_top w x h : Depth w x h -> exists t, Top w x t.
+Proof.
+  induction 1 as [x n Hn Ht | x n p h Hn Hp Hd (t & IH)].
+  - exists (n_parent n). eapply T_here; eauto.
+  - exists t. eapply T_up; eauto.
+Qed.
+
+Lemma model_walk_top f : forall x w r w', model_walk f x w = Val (r, w') ->
+  w' = w /\ exists t, Top w x t /\ match t with
+                                   | PModel m => r = OK m
+                                   | _ => r = ER ItemDeleted
+                                   end.
+Proof.
+  induction f as [|f IH]; intros x w r w' H; cbn [model_walk] in H; [discriminate|].
+  wstep H; winv E. destruct (n_parent n) as [|m|p] eqn:Hp.
+  - winv H. split; auto. exists PNone. split; auto. rewrite <- Hp. eapply T_here; eauto. rewrite Hp. congruence.
+  - winv H. split; auto. exists (PModel m). split; auto. rewrite <- Hp. eapply T_here; eauto. rewrite Hp. congruence.
+  - apply IH in H as (-> & t & Ht & Hr). split; auto. exists t. split; auto. eapply T_up; eauto.
+Qed.
+
+Lemma model_of_top x w r w' : model_of x w = Val (r, w') ->
+  w' = w /\ exists t, Top w x t /\ match t with PModel m => r = OK m | _ => r = ER ItemDeleted end.
+Proof. unfold model_of. intros H. wstep H; winv E. eapply model_walk_top; eauto. Qed.
